@@ -603,6 +603,40 @@ Proof.
 Qed.
 
 (* ---------- time, connection loss ---------- *)
+(* lock commands: set_lock is the only-if-absent write of an integer token *)
+Lemma R_setlock U g i k tok ttl : Q g -> R (fst (cmd_step U g i (KSetLock k tok ttl))).
+Proof. intro HQ. exact (R_set U g i k (VInt tok) ttl (Some false) HQ). Qed.
+
+Lemma R_unlock U g i k tok : Q g -> R (fst (cmd_step U g i (KUnlock k tok))).
+Proof.
+  intro HQ. cbn [cmd_step]. set (cl := clients g i). set (s := srv g). set (t := now g).
+  set (cl' := match llook cl t k with
+              | Some (LV (VInt z), _) => if z =? tok then with_local cl (kupd (local cl) k None) else cl
+              | _ => cl end).
+  assert (Hshape : cl' = cl \/ cl' = with_local cl (kupd (local cl) k None)).
+  { unfold cl'. destruct (llook cl t k) as [[[v|] d]|]; try (left; reflexivity).
+    destruct v; try (left; reflexivity). destruct (_ =? _); [right|left]; reflexivity. }
+  assert (Hst : started cl' = started cl) by (destruct Hshape as [->| ->]; reflexivity).
+  assert (Hq : queue cl' = queue cl) by (destruct Hshape as [->| ->]; reflexivity).
+  assert (Hm : forall k', marked cl' t k' = marked cl t k') by (intro k'; destruct Hshape as [->| ->]; reflexivity).
+  assert (Hl : forall k', llook cl' t k' = None \/ llook cl' t k' = llook cl t k').
+  { intro k'. destruct Hshape as [->| ->]; [right; reflexivity|]. unfold llook, with_local. cbn [local]. unfold kupd.
+    destruct (String.eqb k' k); [left|right]; reflexivity. }
+  assert (Same : R {| srv := s; now := t; clients := cupd (clients g) i cl'; nclients := nclients g |}).
+  { apply R_after_local; [exact HQ|exact Hst|rewrite Hq; apply (HQ i)|]. intros St k'. rewrite Hst in St.
+    destruct (Q_started_facts g i HQ St k') as [M C]. fold cl s t in M, C. split; [rewrite Hm; exact M|].
+    unfold coherent_at in *. fold s t. destruct (Hl k') as [E|E]; rewrite E; [exact I|exact C]. }
+  rewrite up_get. fold s t. destruct (sval s t k) as [v|]; [|exact Same]. destruct v; try exact Same.
+  destruct (z =? tok); [|exact Same].
+  rewrite redis_refines_ref. cbn [r_step fst].
+  apply (R_after_cmd g i cl' _ (live_keys s t [k])); [exact HQ|exact Hst|rewrite Hq; apply (HQ i)| |].
+  - intros k' Hn. apply sval_look. apply frame_drop. exact Hn.
+  - intro St. rewrite Hst in St. apply (P_shrunk s _ t cl cl').
+    + exact (Q_started_facts g i HQ St).
+    + exact Hm.
+    + intros k' Hn. destruct (Hl k') as [E|E]; [left; exact E|right]. split; [exact E|]. apply sval_look. apply frame_drop. exact Hn.
+Qed.
+
 Definition KU (U : list key) (g : cfg) : Prop := forall k, srv g k <> None -> In k U.
 
 Lemma look_later s t t' k e : t <= t' -> look s t' k = Some e -> look s t k = Some e.
@@ -662,13 +696,13 @@ Qed.
 
 Lemma KU_step U g e : (match e with Cmd _ c => Forall (fun k => In k U)
                           (match c with
-                           | KSet k _ _ _ | KIncr k _ _ | KExpire k _ => [k]
+                           | KSet k _ _ _ | KIncr k _ _ | KExpire k _ | KSetLock k _ _ => [k]
                            | KSetMany kvs _ => map fst kvs
                            | _ => [] end) | _ => True end) ->
   KU U g -> KU U (fst (step U g e)).
 Proof.
   intros Hw HK. destruct e as [i c| dt | |i]; cbn [step].
-  - destruct c as [k|ks|k|k v ttl ex|kvs ttl|k by_ ttl|k|ks|pat|k ttl|]; cbn [cmd_step].
+  - destruct c as [k|ks|k|k v ttl ex|kvs ttl|k by_ ttl|k|ks|pat|k ttl| |k tok ttl|k tok]; cbn [cmd_step].
     + destruct (local_read _ _ _); [exact HK|]. destruct (read_through _ _ _ _ _). exact HK.
     + destruct (fold_left _ ks _). exact HK.
     + destruct (local_read _ _ _) as [[?|]|]; exact HK.
@@ -700,6 +734,13 @@ Proof.
       destruct (look (srv g) (now g) k) as [[rv d]|]; cbn [fst]; [|exact HK].
       intros k' H. cbn [srv] in H. destruct (ttl <=? 0); unfold supd in H; (destruct (String.eqb_spec k' k); [subst; exact Hk|apply HK; exact H]).
     + cbn [up_step fst]. intros k' H. cbn in H. contradiction.
+    + rewrite redis_refines_ref. cbn [r_step]. inversion Hw as [|? ? Hk _]; subst.
+      assert (A : KU U {| srv := supd (srv g) k (Some (enc (VInt tok), deadline (now g) ttl)); now := now g; clients := clients g; nclients := nclients g |}).
+      { intros k' H. cbn in H. unfold supd in H. destruct (String.eqb_spec k' k); [subst; exact Hk|apply HK; exact H]. }
+      destruct (Bool.eqb _ false); cbn [fst]; intros k' H; cbn [srv] in H; try (apply (A k'); exact H); apply HK; exact H.
+    + rewrite up_get. destruct (sval (srv g) (now g) k) as [v|]; [|exact HK]. destruct v; try exact HK. destruct (_ =? _); [|exact HK].
+      rewrite redis_refines_ref. cbn [r_step fst]. intros k' H. cbn [srv] in H. apply HK. intro E. apply H.
+      unfold drop. cbn. destruct (present (srv g) (now g) k); [|exact E]. unfold supd. destruct (String.eqb k' k); [reflexivity|exact E].
   - destruct (dt <? 0); [exact HK|]. cbn [fst]. intros k H. cbn [srv] in H. apply HK. intro E. apply H. unfold look. rewrite E. reflexivity.
   - exact HK.
   - destruct (negb (started (clients g i))); exact HK.
@@ -709,7 +750,7 @@ Qed.
 Definition wf_event (U : list key) (e : event) : Prop :=
   match e with
   | Cmd _ c => Forall (fun k => In k U) (match c with
-                                         | KSet k _ _ _ | KIncr k _ _ | KExpire k _ => [k]
+                                         | KSet k _ _ _ | KIncr k _ _ | KExpire k _ | KSetLock k _ _ => [k]
                                          | KSetMany kvs _ => map fst kvs
                                          | _ => [] end)
   | _ => True
@@ -718,7 +759,7 @@ Definition wf_event (U : list key) (e : event) : Prop :=
 Lemma R_step U g e : KU U g -> Q g -> R (fst (step U g e)).
 Proof.
   intros HK HQ. destruct e as [i c|dt| |i].
-  - cbn [step]. destruct c; [apply R_get|apply R_getmany|apply R_exists|apply R_set|apply R_setmany|apply R_incr|apply R_del|apply R_delmany|apply R_delmatch|apply R_expire|apply R_clear]; exact HQ.
+  - cbn [step]. destruct c; [apply R_get|apply R_getmany|apply R_exists|apply R_set|apply R_setmany|apply R_incr|apply R_del|apply R_delmany|apply R_delmatch|apply R_expire|apply R_clear|apply R_setlock|apply R_unlock]; exact HQ.
   - apply R_tick; assumption.
   - cbn [step fst]. intro j. cbn [clients srv now]. destruct (HQ j) as [Qq Qs]. unfold deliver_one. rewrite Qq. cbn [fold_left queue started local marks].
     split; [|reflexivity]. intros St k. destruct (Qs St k) as [M C]. unfold marked, coherent_at, llook in *. cbn [marks local]. rewrite M. split; [discriminate|]. intros _ _. exact C.
